@@ -19,9 +19,26 @@ def depslib_trusted():
             "Model/DepsReplay.guess is untrusted: acceptance re-runs Model/Deps.run on the guessed schedule"]
 
 
-def contention(ctx, parts=("contend", "generic", "names", "invalid", "custom", "verbose", "wide", "escaped"), rounds=None):
+def contention(ctx, parts=("contend", "generic", "names", "invalid", "custom", "verbose", "wide", "escaped"), rounds=None, knob_env=None):
     """C01 under contention: a lost update in the registry only shows when several goroutines miss
     the same fresh key at the same instant (oracle only; the theorem side is C01_at_most_once)."""
+    if knob_env is None:
+        # MAGEFILE_* variables in the source that no model knows (lib/depslib.discover_knobs): the probes run again with each set
+        for k in depslib.discover_knobs():
+            for v in ("1", "true"):
+                contention(ctx, parts=tuple(x for x in parts if x not in ("contend", "long", "generic")), rounds=100, knob_env={k: v})
+    if knob_env:
+        # every violation of this run says under which environment it was seen
+        orig = ctx.violation
+        ctx.violation = lambda what, case=None, **kw: orig(dict(what, environment=knob_env), case=case, **kw)
+        try:
+            return _contention(ctx, parts, rounds, knob_env)
+        finally:
+            ctx.violation = orig
+    return _contention(ctx, parts, rounds, knob_env)
+
+
+def _contention(ctx, parts, rounds, knob_env):
     binp = os.path.join(ctx.tmp, "bin_depsrun")
     gor = 8 if ctx.quick else 16
     rounds = rounds or (4000 if ctx.quick else 60000)
@@ -29,9 +46,12 @@ def contention(ctx, parts=("contend", "generic", "names", "invalid", "custom", "
     if "long" in parts:
         # quick: 3 s; thorough: 11 minutes (longer than any plausible built-in patience of ten minutes)
         spec["contend"]["long_ms"] = 3000 if ctx.quick else 660000
-    rc, out, err = sh([binp], input=json.dumps(spec).encode(), timeout=1500)
+    env = dict(os.environ, **(knob_env or {}))
+    if knob_env:
+        spec["environment"] = knob_env
+    rc, out, err = sh([binp], input=json.dumps(spec).encode(), env=env, timeout=1500)
     if rc != 0:
-        ctx.violation({"kind": "harness-run-failed", "rc": rc, "stderr": err[-1500:]}, case=spec, found_input=False)
+        ctx.violation({"kind": "harness-run-failed", "rc": rc, "stderr": err[-1500:]}, case=spec, found_input=bool(knob_env))
         return
     r = json.loads(out.strip().splitlines()[-1])
     ctx.coverage["contention_keys"] = r["keys"]
@@ -82,7 +102,14 @@ def contention(ctx, parts=("contend", "generic", "names", "invalid", "custom", "
     if "long" in parts:
         ctx.coverage["long_wait_probe_ms"] = spec["contend"]["long_ms"]
         if r.get("long_wait"):
-            ctx.violation({"kind": "oracle", "oracle": "C02", "clauses": [r["long_wait"]]}, case={"call": "mg.SerialDeps(longDep)", "long_ms": spec["contend"]["long_ms"]})
+            ctx.violation({"kind": "oracle", "oracle": "C02/C13", "clauses": [r["long_wait"]]}, case={"call": "go mg.Deps(longDep); mg.SerialDeps(longDep, longNext)", "long_ms": spec["contend"]["long_ms"]})
+        if "LPROBE-BEGIN" in err:
+            seg = err.split("LPROBE-BEGIN", 1)[1].split("LPROBE-END", 1)[0]
+            nlong = sum(1 for l in seg.splitlines() if "Running dependency:" in l and "longDep" in l)
+            ctx.coverage["long_wait_probe_lines"] = nlong
+            if nlong != 1:
+                ctx.violation({"kind": "oracle", "oracle": "C01", "clauses": ["with MAGEFILE_VERBOSE=1 a dependency that ran for %d ms got %d 'Running dependency:' lines, must be exactly one" % (spec["contend"]["long_ms"], nlong)]},
+                              case={"call": "mg.Deps(longDep) under MAGEFILE_VERBOSE=1", "stderr": seg[-500:]})
     ctx.coverage["rerequest_after_many_probe"] = r.get("rerequest_after_many")
     if "wide" in parts and r.get("rerequest_after_many") and r["rerequest_after_many"] != [1, 1, 1, 1]:
         ctx.violation({"kind": "oracle", "oracle": "C01/C13", "clauses": ["dependencies that had finished were requested again after more than 10 000 other dependencies had been registered: executions now %s, must stay 1 each" % r["rerequest_after_many"]]},
